@@ -1,3 +1,229 @@
 import TTModel.Proto
-/-! C15 driver — stub (not built yet): answers `bad-op` to everything. -/
-def main : IO Unit := TT.Proto.mainLoop fun _ => "bad-op"
+import TTModel.Scalar
+import TTModel.C15_Expr
+import TTModel.C15_MCMC
+import TTModel.C16_Leapfrog
+import TTGen.C15_Tuning
+/-!
+C15 driver (Float; floats as 16-hex-digit bit patterns).
+
+  tune <kind> <scale> <acc> <target> <count>      -> new scale   (generated getter/rm/setter)
+  get  <kind> <scale>                              -> adaptable parameter
+  set  <kind> <value>                              -> scale
+  dirlp <n> conc.. x..                             -> Dirichlet(conc).log_prob(x)
+  step <machine> <tape> <target table>             -> one `TT.C15.mcmcStep`
+
+`step` payload, all space separated:
+  P size_1..size_P  values(flattened)
+  logJoint epoch acceptTotal
+  nops, then per operator:
+     kind pidxLen pidx.. target disabled windowLen scale adaptCount accept reject wlen w..
+     and for kind hmc:  steps diag|dense n IM.. G(n*n).. b..     (joint gradient -(G q + b))
+  nr rands..  ni ints..  nd (len v..)*nd  nn (len v..)*nn
+  K, then K entries: values(flattened state) fin|bad value     (target: nearest recorded state)
+reply:
+  ok opIdx | proposed(flat) | hr (fin x | inf) | lp (none | bad | fin x) | accProb accepted u(none|x)
+     | stateAfter(flat) | logJointAfter | logged (bad | fin x) | scaleAfter adaptCount accept reject wlen w..
+     | consumed nr ni nd nn | epoch acceptTotal
+  none                                                 (tape dry / operator index out of range)
+-/
+open TT TT.C15 TT.Proto TTGen.C15_Tuning
+
+abbrev P (β : Type) := StateT (List String) Option β
+
+def word : P String := fun ws => match ws with | [] => none | w :: r => some (w, r)
+def nat : P Nat := do let w ← word; match w.toNat? with | some k => pure k | none => failure
+def flt : P Float := do let w ← word; match parseFloatBits w with | some x => pure x | none => failure
+def many {β} (n : Nat) (p : P β) : P (List β) := do
+  let mut xs : Array β := #[]
+  for _ in [0:n] do xs := xs.push (← p)
+  pure xs.toList
+def done : P Unit := fun ws => match ws with | [] => some ((), []) | _ => none
+
+def parseKind : String → Option Kind
+  | "scaler" => some .scaler | "window" => some .window | "dirichlet" => some .dirichlet
+  | "hmc" => some .hmc | "block" => some .block | _ => none
+def kind : P Kind := do let w ← word; match parseKind w with | some k => pure k | none => failure
+
+/-! lgamma for the Dirichlet log-density (Lanczos g = 7, reflection below 1/2) -/
+def lanczos : List Float :=
+  [0.99999999999980993, 676.5203681218851, -1259.1392167224028, 771.32342877765313,
+   -176.61502916214059, 12.507343278686905, -0.13857109526572012, 9.9843695780195716e-6,
+   1.5056327351493116e-7]
+
+partial def lgammaF (x : Float) : Float :=
+  let pi := 3.141592653589793
+  if x < 0.5 then
+    Float.log (pi / Float.abs (Float.sin (pi * x))) - lgammaF (1.0 - x)
+  else
+    let x := x - 1.0
+    let t := x + 7.5
+    let a := (lanczos.drop 1).zipIdx.foldl (fun acc (c, i) => acc + c / (x + (Float.ofNat i) + 1.0))
+      (lanczos.headD 0.0)
+    0.5 * Float.log (2.0 * pi) + (x + 0.5) * Float.log t - t + Float.log a
+
+/-- `torch.distributions.Dirichlet(conc).log_prob(x)` -/
+def dirLogProbF (conc x : List Float) : Float :=
+  let s1 := (conc.zip x).foldl (fun acc (c, v) => acc + (if c - 1.0 == 0.0 then 0.0 else (c - 1.0) * Float.log v)) 0.0
+  s1 + lgammaF (conc.foldl (· + ·) 0.0) - conc.foldl (fun acc c => acc + lgammaF c) 0.0
+
+structure HmcCfg where
+  steps : Nat
+  dense : Bool
+  n : Nat
+  im : Array Float
+  G : Array Float
+  b : Array Float
+
+def vecOf (a : Array Float) (n : Nat) : TT.C16.Vec Float n := fun i => a.getD i.val 0.0
+
+def hmcRun (c : HmcCfg) (eps : Float) (q : List Float) (normals : List (List Float)) :
+    List Float × HR Float × Nat :=
+  let n := c.n
+  if q.length ≠ n then (q, .inf, 0) else
+  match normals with
+  | [] => (q, .inf, 0)
+  | _ =>
+    let im : TT.C16.IMass Float n :=
+      if c.dense then .dense fun i j => c.im.getD (i.val * n + j.val) 0.0
+      else .diag fun i => c.im.getD i.val 0.0
+    let g : TT.C16.Vec Float n → TT.C16.Vec Float n := fun x i =>
+      -((sumFin fun j : Fin n => c.G.getD (i.val * n + j.val) 0.0 * x j) + c.b.getD i.val 0.0)
+    let ms := (normals.take 10).map fun m => vecOf m.toArray n
+    match TT.C16.hmcStep (fun _ => false) g (eps / 2.0) eps 0.5 im c.steps (vecOf q.toArray n) 10 ms with
+    | .ok q' hr => ((List.finRange n).map q', .fin hr, 1)
+    | .inf q' => ((List.finRange n).map q', .inf, min 10 normals.length)
+
+def parseOp (i : Nat) : P (Op Float × Option HmcCfg) := do
+  let k ← kind
+  let np ← nat
+  let pidx ← many np nat
+  let target ← flt
+  let dis ← nat
+  let wl ← nat
+  let scale ← flt
+  let ac ← nat
+  let acc ← nat
+  let rej ← nat
+  let wn ← nat
+  let w ← many wn nat
+  let op : Op Float :=
+    { id := i, kind := k, pidx := pidx, target := target, disabled := dis != 0,
+      windowLen := wl, scale := scale, adaptCount := ac, accept := acc, reject := rej, window := w }
+  if k == .hmc then
+    let steps ← nat
+    let kd ← word
+    let n ← nat
+    let dense := kd == "dense"
+    let im ← many (if dense then n * n else n) flt
+    let G ← many (n * n) flt
+    let b ← many n flt
+    pure (op, some ⟨steps, dense, n, im.toArray, G.toArray, b.toArray⟩)
+  else pure (op, none)
+
+def unflat (sizes : List Nat) (v : List Float) : Params Float := splitBy sizes v
+
+def parseLens : P (List Float) := do let n ← nat; many n flt
+
+def showF (x : Float) : String := floatBits x
+def showFlat (st : Params Float) : String := " ".intercalate (st.flatten.map showF)
+def showHR : HR Float → String | .fin x => s!"fin {showF x}" | .inf => "inf"
+def showLP : LogP Float → String | .fin x => s!"fin {showF x}" | .bad => "bad"
+
+def dist (a b : List Float) : Float :=
+  (a.zip b).foldl (fun acc (x, y) => let d := Float.abs (x - y); if d > acc then d else acc) 0.0
+
+instance : Inhabited (Op Float) :=
+  ⟨{ id := 0, kind := .window, pidx := [], target := 0.0, disabled := true, windowLen := 0,
+     scale := 0.0, adaptCount := 0, accept := 0, reject := 0, window := [] }⟩
+
+def runStep : P String := do
+  let np ← nat
+  let sizes ← many np nat
+  let vals ← many (sizes.foldl (· + ·) 0) flt
+  let state := unflat sizes vals
+  let lj ← flt
+  let epoch ← nat
+  let accT ← nat
+  let nops ← nat
+  let mut ops : Array (Op Float) := #[]
+  let mut cfgs : Array (Option HmcCfg) := #[]
+  for i in [0:nops] do
+    let (o, c) ← parseOp i
+    ops := ops.push o
+    cfgs := cfgs.push c
+  let nr ← nat
+  let rands ← many nr flt
+  let ni ← nat
+  let ints ← many ni nat
+  let nd ← nat
+  let dirs ← many nd parseLens
+  let nn ← nat
+  let normals ← many nn parseLens
+  let k ← nat
+  let mut table : Array (List Float × LogP Float) := #[]
+  for _ in [0:k] do
+    let key ← many vals.length flt
+    let tag ← word
+    let v ← flt
+    table := table.push (key, if tag == "fin" then .fin v else .bad)
+  done
+  let nan : Float := 0.0 / 0.0
+  let target : Params Float → LogP Float := fun st =>
+    let f := st.flatten
+    let best := table.foldl (fun (acc : Option (Float × LogP Float)) e =>
+      let d := dist e.1 f
+      match acc with
+      | none => some (d, e.2)
+      | some (bd, bv) => if d < bd then some (d, e.2) else some (bd, bv)) none
+    match best with
+    | some (d, v) =>
+      let sc := f.foldl (fun m x => if Float.abs x > m then Float.abs x else m) 1.0
+      if d ≤ 1e-9 * sc then v else .fin nan     -- no recorded evaluation near this state
+    | none => .fin nan
+  let env : Env Float :=
+    { target := target, dirLogProb := dirLogProbF,
+      hmcProp := fun op q normals =>
+        match cfgs.getD op.id none with
+        | some c => hmcRun c op.scale q normals
+        | none => (q, .inf, 0),
+      blockProp := fun _ own tape => (own, .inf, tape),
+      get := genGet, set := genSet, rm := genRm }
+  let m : Machine Float :=
+    { state := state, logJoint := lj, ops := ops.toList, epoch := epoch, acceptTotal := accT }
+  let tape : Tape Float := ⟨rands, ints, dirs, normals⟩
+  match mcmcStep env 0.5 m tape with
+  | none => pure "none"
+  | some (m', tape', r) =>
+    let op' := m'.ops.getD r.opIdx (ops.getD 0 default)
+    let lp := match r.lpProposed with | none => "none" | some v => showLP v
+    let u := match r.uUsed with | none => "none" | some v => showF v
+    let w := " ".intercalate (op'.window.map toString)
+    pure (s!"ok {r.opIdx} | {showFlat r.proposed} | {showHR r.hr} | {lp} | {showF r.accProb} " ++
+      s!"{if r.accepted then 1 else 0} {u} | {showFlat r.stateAfter} | {showF r.logJointAfter} | " ++
+      s!"{showLP r.logged} | {showF r.scaleAfter} {op'.adaptCount} {op'.accept} {op'.reject} " ++
+      s!"{op'.window.length} {w} | {rands.length - tape'.rands.length} " ++
+      s!"{ints.length - tape'.ints.length} {dirs.length - tape'.dirs.length} " ++
+      s!"{normals.length - tape'.normals.length} | {m'.epoch} {m'.acceptTotal}")
+
+def handle (line : String) : String :=
+  let r : Option String :=
+    match splitWords line with
+    | ["tune", k, s, a, t, c] => do
+        let k ← parseKind k
+        let s ← parseFloatBits s
+        let a ← parseFloatBits a
+        let t ← parseFloatBits t
+        let c ← c.toNat?
+        pure (showF (genSet k (genRm (genGet k s) a t (Float.ofNat c))))
+    | ["get", k, s] => do pure (showF (genGet (← parseKind k) (← parseFloatBits s)))
+    | ["set", k, v] => do pure (showF (genSet (← parseKind k) (← parseFloatBits v)))
+    | "dirlp" :: n :: rest => do
+        let n ← n.toNat?
+        let xs ← rest.mapM parseFloatBits
+        if xs.length ≠ 2 * n then none else pure (showF (dirLogProbF (xs.take n) (xs.drop n)))
+    | "step" :: rest => runStep.run' rest
+    | _ => none
+  r.getD "bad-op"
+
+def main : IO Unit := mainLoop handle
